@@ -27,23 +27,24 @@ case "${1:-}" in
   quick|thorough)
     tier=$1; id=${2:?property id}
     seed=${VERIF_SEED:-1}
-    mkdir -p "$ROOT/evidence" "$H/target"
+    EVD=${QXV_EVIDENCE_DIR:-$ROOT/evidence}
+    mkdir -p "$EVD" "$H/target"
     build full
     variants=$("$H/target/full/release/qxv" variants "$id") || { echo "unknown property $id"; exit 3; }
     rc=0; merge=""
-    rm -f "$ROOT/evidence/.$id.part.json"
+    rm -f "$EVD/.$id.part.json"
     nvar=$(echo $variants | wc -w); k=0
     for v in $variants; do
       k=$((k+1))
       [ "$v" = min ] && build min
-      out="$ROOT/evidence/$id.json"
-      [ $k -lt $nvar ] && out="$ROOT/evidence/.$id.part.json"
+      out="$EVD/$id.json"
+      [ $k -lt $nvar ] && out="$EVD/.$id.part.json"
       "$H/target/$v/release/qxv" check "$id" --tier "$tier" --seed "$seed" $merge --out "$out"
       r=$?
       if [ $r -eq 1 ]; then rc=1; elif [ $r -ne 0 ] && [ $rc -eq 0 ]; then rc=2; fi
       merge="--merge-from $out"
     done
-    rm -f "$ROOT/evidence/.$id.part.json"
+    rm -f "$EVD/.$id.part.json"
     exit $rc ;;
   replay)
     f=${2:?replay file}
